@@ -8,6 +8,7 @@ package props
 
 import (
 	"fmt"
+	"os"
 	"net"
 	"path/filepath"
 	"strings"
@@ -29,6 +30,9 @@ type C10Case struct {
 	Universe []kit.KeySpec `json:"universe"`
 	Attempts []C10Attempt  `json:"attempts"`
 	Seed     int64         `json:"seed"`
+	// ViaSignal: reloads are triggered the way operators do it - the file the server was started with is
+	// rewritten and the process gets SIGHUP - instead of by calling the loader
+	ViaSignal bool `json:"via_signal,omitempty"`
 }
 
 var c10Faults = []string{"none", "none", "missing", "malformed", "badtype", "hostname", "duplicate", "badcipher_svc", "badcipher_svc", "badcipher_legacy", "unbindable", "unbindable"}
@@ -46,6 +50,7 @@ func genC10(maxAttempts int) func(t *rapid.T) C10Case {
 			}
 			c.Attempts = append(c.Attempts, a)
 		}
+		c.ViaSignal = rapid.IntRange(0, 4).Draw(t, "viaSignal") == 0
 		return c
 	}
 }
@@ -212,6 +217,7 @@ func runC10(c C10Case, info *kit.Info) *kit.Finding {
 	}
 	serving := map[endpoint]*endpointModel{}
 	lateFailureThenMore := false
+	startFile := ""
 	for i, a := range c.Attempts {
 		addEndpoints(a.Config)
 		path, mustFail, acquired, release := applyFault(s, a, serving)
@@ -219,12 +225,75 @@ func runC10(c C10Case, info *kit.Info) *kit.Finding {
 		if i == 0 {
 			cmd = "run"
 		}
+		when := fmt.Sprintf("after attempt %d (fault %s)", i, a.Fault)
+		if c.ViaSignal && i > 0 {
+			// rewrite the file the server was started with, then SIGHUP; the outcome is only visible in what is served
+			if b, rerr := os.ReadFile(path); rerr == nil {
+				os.WriteFile(startFile, b, 0o644)
+			} else {
+				os.Remove(startFile)
+			}
+			r, err := s.ex.Do(map[string]any{"cmd": "sighup"}, 20*time.Second)
+			if err != nil {
+				release()
+				return execFailure(s, err)
+			}
+			info.Class("fault:"+a.Fault, "reload-by-SIGHUP")
+			want := serving
+			if !mustFail {
+				want = a.Config.serving(s.pt)
+			}
+			known := r.OK || strings.HasPrefix(r.Err, "reload failed")
+			if known {
+				release()
+				if mustFail && r.OK {
+					return kit.Violation("reload:faulty-config-accepted", "%s by SIGHUP: loading succeeded although the configuration is faulty", when)
+				}
+				if !mustFail && !r.OK && portTakenByOthers(r.Err) {
+					info.Skipped = "port taken by another process"
+					return nil
+				}
+				if !mustFail && !r.OK {
+					return kit.Violation("reload:valid-config-rejected", "%s by SIGHUP: a valid configuration was not loaded: %s", when, r.Err)
+				}
+			}
+			var f *kit.Finding
+			deadline := time.Now()
+			if !known {
+				// the server did not say how it went (its log messages changed?): judge by what is served, within a bound
+				deadline = time.Now().Add(6 * time.Second)
+				if mustFail {
+					time.Sleep(400 * time.Millisecond)
+					release()
+					deadline = time.Now()
+				}
+			}
+			for {
+				f, err = s.probeMatrix(want, unionList, c.Universe, when+" by SIGHUP", info)
+				if err != nil {
+					release()
+					return execFailure(s, err)
+				}
+				if f == nil || time.Now().After(deadline) {
+					break
+				}
+				time.Sleep(50 * time.Millisecond)
+			}
+			release()
+			if f != nil {
+				return f
+			}
+			serving = want
+			continue
+		}
 		r, err := s.ex.Do(map[string]any{"cmd": cmd, "config": path}, 30*time.Second)
 		release()
 		if err != nil {
 			return execFailure(s, err)
 		}
-		when := fmt.Sprintf("after attempt %d (fault %s)", i, a.Fault)
+		if i == 0 {
+			startFile = path
+		}
 		info.Class("fault:" + a.Fault)
 		if mustFail {
 			if r.OK {
